@@ -49,6 +49,11 @@ class Cx:
             idx = list(y.index)
             idx[3], idx[7] = idx[7], idx[3]
             return pd.Series(y.values, index=pd.Index(idx))
+        if cls == "backwards-range":
+            # the time index runs backwards as a range index with a negative step (what y[::-1] of a default-indexed series carries)
+            return pd.Series(y.values[::-1].copy(), index=pd.RangeIndex(int(y.index[-1]), int(y.index[0]) - 1, -1))
+        if cls == "backwards":
+            return pd.Series(y.values[::-1].copy(), index=pd.Index(list(y.index)[::-1]))
         if cls == "empty":
             return y.iloc[:0]
         if cls == "dataframe":
@@ -88,7 +93,7 @@ class Cx:
                 "dup-array": np.array([3, 3]), "2d": np.array([[1, 2], [3, 4]]), "dup-index-sorted": pd_index([1, 2, 2]), "dup-index-constant": pd_index([2, 2])}[cls]
 
 
-Y_CLASSES = ["unsorted", "empty", "dataframe", "ndarray", "list"]
+Y_CLASSES = ["unsorted", "empty", "dataframe", "ndarray", "list", "backwards-range", "backwards"]
 FH_CLASSES = ["dup", "empty", "frac", "str", "tuple", "set", "dup-array", "empty-fh-object", "empty-abs-fh-object", "empty-array", "empty-index", "dup-index-sorted", "dup-index-constant"]
 
 
